@@ -791,10 +791,16 @@ func (cs *ContractSet) ParseContractText(pkgPath, file, text string) error {
 				site := fs[1]
 				before := len(fs) > 2 && fs[2] == "before"
 				i := strings.Index(rc.rest, "assert")
+				kw := "assert"
+				if len(fs) > 2 && fs[2] == "assume" {
+					// at call NAME#k assume expr: an ASSUMED contract of a library function at this call (listed in the evidence)
+					i = strings.Index(rc.rest, "assume")
+					kw = "assume"
+				}
 				if i < 0 {
 					return errf(fmt.Errorf("at clause without assert"))
 				}
-				tag, props, body := parseTags(rc.rest[i+len("assert"):])
+				tag, props, body := parseTags(rc.rest[i+len(kw):])
 				e, err := ParseSpecExpr(body)
 				if err != nil {
 					return errf(err)
@@ -802,6 +808,9 @@ func (cs *ContractSet) ParseContractText(pkgPath, file, text string) error {
 				kind := "assert"
 				if before {
 					kind = "assert-before"
+				}
+				if kw == "assume" {
+					kind = "assume-after"
 				}
 				cur.AtCalls = append(cur.AtCalls, &Clause{Kind: kind, Tag: tag, Props: props, Src: body, Expr: e, Site: site, File: file, Line: rc.line})
 			case "loop":
